@@ -9,5 +9,5 @@ Extraction Language OCaml.
 Extraction "c15_model.ml"
   init step run cur
   mon_one_live mon_heartbeat mon_backoff mon_leave_full mon_done C15_holds
-  f5_scenario standby_scenario leader_assign new_gen g_set_pub
+  f5_scenario standby_scenario leader_assign deadline_of_call connect dial_attempts new_gen g_set_pub
   N.of_nat Z.of_N. (* the last two only so that kvio.ml.in finds the type n *)
